@@ -87,6 +87,11 @@ def handle (line : String) : String :=
       match parseFormula f, n.toNat?, parseEnv sigs with
       | some φ, some n, some w => showRes (evalOff Generated.offlineDiscrete.handles w n φ)
       | _, _, _ => "bad-input"
+  | "offdgen" :: f :: n :: sigs =>
+      -- the offline visitor run through the visit methods translated from the Python source
+      match parseFormula f, n.toNat?, parseEnv sigs with
+      | some φ, some n, some w => showRes (Py.evalOffG w n φ)
+      | _, _, _ => "bad-input"
   | "ond" :: f :: n :: sigs =>
       match parseFormula f, n.toNat?, parseEnv sigs with
       | some φ, some n, some w =>
